@@ -131,10 +131,12 @@ func (p Package) doNewVar(name string, t Type) Global {
 				zero := p.moduleZeroSizedAlloc(p.Prog.Elem(t))
 				alias := llvm.AddAlias(p.mod, typ, 0, zero.impl, name)
 				alias.SetLinkage(llvm.ExternalLinkage)
-				// The returned Global intentionally points at the shared
-				// sentinel; the alias above preserves this package variable's
-				// symbol for external references.
-				ret := &aGlobal{zero}
+				// The package itself refers to the variable through the alias
+				// as well: other packages can only name the alias, and it is
+				// bound to this object's copy of the linkonce sentinel, which
+				// need not be the copy that survives the link. One variable
+				// must have one address.
+				ret := &aGlobal{Expr{alias, t}}
 				p.vars[name] = ret
 				return ret
 			}
@@ -155,10 +157,16 @@ func (p Package) VarOf(name string) Global {
 
 // Init initializes the global variable with the given value.
 func (g Global) Init(v Expr) {
+	if !g.impl.IsAGlobalAlias().IsNil() {
+		return // zero-sized variable: an alias of the shared sentinel has no initializer
+	}
 	g.impl.SetInitializer(v.impl)
 }
 
 func (g Global) InitNil() {
+	if !g.impl.IsAGlobalAlias().IsNil() {
+		return
+	}
 	g.impl.SetInitializer(llvm.ConstNull(g.impl.GlobalValueType()))
 }
 
